@@ -117,8 +117,9 @@ type Other { title: String }`
 			}
 			// wait until the picture has been stable for a while
 			last, stableSince := got(), time.Now()
-			deadline := time.Now().Add(12 * time.Second)
-			for time.Now().Before(deadline) && time.Since(stableSince) < 3*time.Second {
+			// (a first push that fails is repeated by the retry loop within a few seconds: the window is wider than that)
+			deadline := time.Now().Add(30 * time.Second)
+			for time.Now().Before(deadline) && time.Since(stableSince) < 7*time.Second {
 				time.Sleep(200 * time.Millisecond)
 				if g := got(); g != last {
 					last, stableSince = g, time.Now()
